@@ -4,6 +4,7 @@ import (
 	"fmt"
 	"math/big"
 	"reflect"
+	"strings"
 
 	"github.com/cronokirby/saferith"
 	"github.com/taurusgroup/multi-party-sig/internal/elgamal"
@@ -95,6 +96,21 @@ func bigWitness(r *vk.Rand, class string, bits uint) *big.Int {
 	return x
 }
 
+// xyWitness exercises the two range checks of the affine proofs separately.
+func xyWitness(r *vk.Rand, class string) (x, y *big.Int) {
+	switch class {
+	case "out-of-range-x":
+		return bigWitness(r, "out-of-range", 256), bigWitness(r, "random", 1280)
+	case "out-of-range-neg-x":
+		return bigWitness(r, "out-of-range-neg", 256), bigWitness(r, "random", 1280)
+	case "out-of-range-y":
+		return bigWitness(r, "random", 256), bigWitness(r, "out-of-range", 1280)
+	case "out-of-range-neg-y":
+		return bigWitness(r, "random", 256), bigWitness(r, "out-of-range-neg", 1280)
+	}
+	return bigWitness(r, class, 256), bigWitness(r, class, 1280)
+}
+
 func scalarWitness(r *vk.Rand, class string) *big.Int {
 	switch class {
 	case "1":
@@ -108,6 +124,7 @@ func scalarWitness(r *vk.Rand, class string) *big.Int {
 }
 
 var rangeClasses = []string{"0", "+1", "-1", "+max", "-max", "random", "out-of-range", "out-of-range-neg"}
+var rangeClassesXY = []string{"0", "+1", "-1", "+max", "-max", "random", "out-of-range-x", "out-of-range-y", "out-of-range-neg-x", "out-of-range-neg-y"}
 var scalarClasses = []string{"1", "q-1", "2", "random"}
 
 func modQ(x *big.Int) curve.Scalar { return LibScalar(new(big.Int).Mod(x, ref.Q)) }
@@ -148,18 +165,8 @@ var zkSystems = []zkSystem{
 			prove:  func(h *hash.Hash) interface{} { return zkdec.NewProof(group, h, pub, zkdec.Private{Y: intOf(y), Rho: rho}) },
 			verify: func(h *hash.Hash, p reflect.Value, pr interface{}) bool { return pr.(*zkdec.Proof).Verify(h, p.Interface().(zkdec.Public)) }}
 	}},
-	{"affg", rangeClasses, func(r *vk.Rand, e zkEnv, class string) *zkInst {
-		x := bigWitness(r, class, 256)
-		yclass := class
-		y := bigWitness(r, yclass, 1280)
-		if class == "out-of-range" || class == "out-of-range-neg" {
-			// exercise the two range checks separately: x out of range with y fine, or the reverse
-			if r.Bool() {
-				x = bigWitness(r, "random", 256)
-			} else {
-				y = bigWitness(r, "random", 1280)
-			}
-		}
+	{"affg", rangeClassesXY, func(r *vk.Rand, e zkEnv, class string) *zkInst {
+		x, y := xyWitness(r, class)
 		kv, _ := e.verifier.sk.PublicKey.Enc(intOf(randScalarBig(r)))
 		ver, prov := e.verifier.sk.PublicKey, e.prover.sk.PublicKey
 		Fp, R := prov.Enc(intOf(y))
@@ -172,16 +179,8 @@ var zkSystems = []zkSystem{
 			},
 			verify: func(h *hash.Hash, p reflect.Value, pr interface{}) bool { return pr.(*zkaffg.Proof).Verify(h, p.Interface().(zkaffg.Public)) }}
 	}},
-	{"affp", rangeClasses, func(r *vk.Rand, e zkEnv, class string) *zkInst {
-		x := bigWitness(r, class, 256)
-		y := bigWitness(r, class, 1280)
-		if class == "out-of-range" || class == "out-of-range-neg" {
-			if r.Bool() {
-				x = bigWitness(r, "random", 256)
-			} else {
-				y = bigWitness(r, "random", 1280)
-			}
-		}
+	{"affp", rangeClassesXY, func(r *vk.Rand, e zkEnv, class string) *zkInst {
+		x, y := xyWitness(r, class)
 		ver, prov := e.verifier.sk.PublicKey, e.prover.sk.PublicKey
 		kv, _ := ver.Enc(intOf(randScalarBig(r)))
 		Xp, Rx := prov.Enc(intOf(x))
@@ -477,7 +476,7 @@ func c10Run(t *vk.T, sys zkSystem, class string, ei int, full bool) {
 	r := t.Rng
 	e := zkEnvAt(ei)
 	h := hash.New(hash.BytesWithDomain{TheDomain: "ctx", Bytes: r.Bytes(8)}, hash.BytesWithDomain{TheDomain: "party", Bytes: []byte("alice")})
-	outOfRange := class == "out-of-range" || class == "out-of-range-neg"
+	outOfRange := strings.HasPrefix(class, "out-of-range")
 	inst := sys.build(r, e, class)
 	var proof interface{}
 	if p, fr, txt := vk.Guard(func() { proof = inst.prove(h.Clone()) }); p {
